@@ -660,6 +660,31 @@ func init() {
 			x.d.fun(fname, as, ev)
 			return tApp(ev, fname, args...)
 		},
+		// foldm(m, acc, xs): left fold of list xs from acc with the Combine of monoid/semigroup instance m
+		"foldm": func(x *Exec, env *CEnv, e CCall, want string) Term {
+			m := x.ceval(env, e.Args[0], "Ref")
+			var ms *methSig
+			for _, in := range x.ifacesOfTerm(m) {
+				if s, ok := x.methodUF(in, "Combine"); ok {
+					ms = s
+				}
+			}
+			if ms == nil {
+				x.cfail(env, "foldm: %s (type %v) has no Combine", m.S, m.Ty)
+			}
+			acc := x.ceval(env, e.Args[1], ms.ret)
+			xs := x.ceval(env, e.Args[2], "")
+			si := x.listKind(env, xs, "foldm")
+			if si.Elem != ms.ret || acc.Sort != ms.ret {
+				x.cfail(env, "foldm: element sort %s, accumulator %s, Combine over %s", si.Elem, acc.Sort, ms.ret)
+			}
+			if si.Kind == "list" {
+				x.d.instantiate("FoldM", map[string]string{"L": xs.Sort, "E": si.Elem, "COMB": ms.fname})
+				return tApp(ms.ret, "foldm_"+xs.Sort+"_"+ms.fname, m, acc, xs)
+			}
+			x.d.instantiate("TFoldM", map[string]string{"T": xs.Sort, "E": si.Elem, "COMB": ms.fname})
+			return tApp(ms.ret, "tfoldm_"+xs.Sort+"_"+ms.fname, m, acc, xs)
+		},
 		"zero": func(x *Exec, env *CEnv, e CCall, want string) Term {
 			id, ok := e.Args[0].(CIdent)
 			if !ok {
